@@ -388,6 +388,9 @@ impl Pos {
         let mut p = self.clone();
         p.side = self.side.other();
         p.ep = None;
+        if self.side == Color::B {
+            p.fullmove = self.fullmove + 1;
+        }
         p
     }
 
